@@ -5,7 +5,7 @@
 From Coq Require Import Permutation Sorted.
 From FB Require Import Base.Sort C01.Model C01.Pool C01.Resolve C01.Attr C01.Fmt C01.Formats C01.ClassFile C01.Annot C01.Mutf8
   C01.Theory1 C01.Theory2 C01.Theory3 C01.Theory4 C01.Theory5 C01.Theory6 C01.Theory7 C01.Theory8 C01.Theory9 C01.Theory10 C01.Theory11
-  C01.Theory12 C01.Theory13 C01.Theory14 C01.Theory15 C01.Theory16 C01.Theory17 C01.Theory18 C01.Theory19 C01.Theory20 C01.Theory21 C01.Theory22 C01.Theory23
+  C01.Theory12 C01.Theory13 C01.Theory14 C01.Theory15 C01.Theory16 C01.Theory17 C01.Theory18 C01.Theory19 C01.Theory20 C01.Theory21 C01.Theory22 C01.Theory23 C01.Theory24 C01.Theory25
   C01.Examples C01.Witness C01.Examples2 C01.Examples3 C01.Examples4.
 
 (* ---- the code array ---------------------------------------------------------------------------- *)
@@ -297,6 +297,27 @@ Theorem C01_fold_attrs_perm : forall impl p b ctx l l', Permutation l l' -> NoDu
 Proof. exact fold_attrs_perm. Qed.
 Print Assumptions C01_fold_attrs_perm.
 
+(* … lifted to ONE statement about whole class files (round 7).  [cperm dec c c']: c' is c with the class-level
+   attribute list and the attribute list of every field_info and method_info permuted, the keys (attribute names
+   through the constant pool, [rkey]) pairwise different within each list.  duke reads the two files to equivalent
+   descriptions or refuses both ([res_rel cequiv]; [cequiv]: header, super types, and member by member flags, name,
+   descriptor and Code equal; under every attribute name the same value; the unknown attributes a permutation;
+   BootstrapMethods is consumed by the constants).  The lists inside Code attributes and record components are not
+   permuted here (C01_fold_attrs_perm covers each of them alone). *)
+Theorem C01_read_class_attr_order : forall impl dec c c',
+  class_fits impl dec c = true -> class_fits impl dec c' = true -> cperm dec c c' ->
+  res_rel cequiv (read_class impl dec (encode_class c)) (read_class impl dec (encode_class c')).
+Proof. exact read_class_attr_order. Qed.
+Print Assumptions C01_read_class_attr_order.
+
+(* the same one stage later, on what the format reader hands to the tree builder (any values, no fit needed) *)
+Theorem C01_build_class_perm : forall impl p minor major head al al' fl fl' ml ml',
+  Permutation al al' -> NoDup (map akey al) -> Forall2 mperm fl fl' -> Forall2 mperm ml ml' ->
+  res_rel cequiv (build_class impl p minor major head (VList al) (VList fl) (VList ml))
+                 (build_class impl p minor major head (VList al') (VList fl') (VList ml')).
+Proof. exact build_class_perm. Qed.
+Print Assumptions C01_build_class_perm.
+
 (* what it rests on: every attribute acts on the state as one of six kinds of operation ([op_of]: fail, nothing,
    read some slots and write one, append an unknown attribute, set the Code, set the Record), touching only
    slots that have its key; two operations on disjoint slots that are not both Code / both Record commute *)
@@ -389,6 +410,32 @@ Theorem C01_strict_is_restriction : forall impl dec rs f s x,
   rd_strict impl dec rs f s = Ok x -> rd_fmt impl dec rs f s = Ok x.
 Proof. exact rd_strict_rd_fmt. Qed.
 Print Assumptions C01_strict_is_restriction.
+
+(* NO JUNK for the WHOLE FILE in one statement (round 7).  [read_class_strict] is read_class with the checked format
+   reader of C01_no_junk_formats and two more checks: the constant pool fills exactly constant_pool_count slots
+   (duke's `while pool.len() < count` lets a Long / Double in the last slot overshoot) and no byte follows the
+   class attributes (duke leaves the rest to the caller).  It keeps read_class's structure — members skipped by
+   their declared attribute lengths, class attributes read where the skipping ended, then back to the members,
+   read by content; that both walks end at the same place is not checked but proved.  For every byte string:
+   the checked reader answers d  iff  the string is encode_class of a structure that fits and is described by d;
+   and whatever the checked reader accepts, duke's reader accepts with the same answer. *)
+Theorem C01_read_class_no_junk : forall impl dec s d, is_bytes s ->
+  (read_class_strict impl dec s = Ok d <->
+   exists c, class_fits impl dec c = true /\ s = encode_class c /\ describe impl dec c = Ok d).
+Proof. exact read_class_no_junk. Qed.
+Print Assumptions C01_read_class_no_junk.
+
+Theorem C01_read_class_strict_is_restriction : forall impl dec s d,
+  read_class_strict impl dec s = Ok d -> read_class impl dec s = Ok d.
+Proof. exact read_class_strict_read_class. Qed.
+Print Assumptions C01_read_class_strict_is_restriction.
+
+(* the constant pool alone: the checked pool reader accepts exactly the encodings of fitting pools *)
+Theorem C01_pool_no_junk : forall dec s p rest, is_bytes s ->
+  (rd_pool_strict dec s = Ok (p, rest) <->
+   exists es, pool_fits es = true /\ s = enc_pool es ++ rest /\ decode_pool dec es = Ok p).
+Proof. exact pool_no_junk. Qed.
+Print Assumptions C01_pool_no_junk.
 
 (* constant_pool_count and the entries, two-slot entries included: PoolRead::read on the bytes of a
    pool yields the pool (Utf8 bytes through the decoder) *)
@@ -582,6 +629,6 @@ Theorem C01_examples4 : nonvacuous4.
 Proof. exact nonvacuous4_holds. Qed.
 Print Assumptions C01_examples4.
 
-Theorem C01_examples5 : nonvacuous17 /\ nonvacuous5 /\ nonvacuous22.
-Proof. exact (conj nonvacuous17_holds (conj nonvacuous5_holds nonvacuous22_holds)). Qed.
+Theorem C01_examples5 : nonvacuous17 /\ nonvacuous5 /\ nonvacuous22 /\ nonvacuous24 /\ nonvacuous25.
+Proof. exact (conj nonvacuous17_holds (conj nonvacuous5_holds (conj nonvacuous22_holds (conj nonvacuous24_holds nonvacuous25_holds)))). Qed.
 Print Assumptions C01_examples5.
